@@ -174,6 +174,13 @@ class CGraph:
                 raise Exception(err_str)
             # print self
 
+        # the pullback of an in-place write has restored the buffer contents from
+        # before the write; redo the writes (in recording order) s.t. the forward
+        # values are intact and further pullbacks are possible
+        for f in self.functionList:
+            if is_set(f.setitem):
+                f.func(*[a.x if isinstance(a, Function) else a for a in f.args])
+
     def function(self, x_list):
         """ computes the function of a function y = f(x_list), where y is a scalar
         and x_list is a list or tuple of input arguments.
